@@ -18,7 +18,7 @@ LEAN_MODULES = ["NiftyVerif.Core.Proto", "NiftyVerif.Model.Kl", "NiftyVerif.Mode
                 "NiftyVerif.Props.C19"]
 DRIVER = "Driver/C19.lean"
 OBLIGATIONS = ["NiftyVerif.C19." + t for t in (
-    "kl_value_avg", "hasFDerivAt_list_sum", "kl_grad_avg", "kl_metric_avg", "kl_grad_constants", "insert_remove_inverse",
+    "kl_value_avg", "hasFDerivAt_list_sum", "kl_grad_avg", "kl_metric_avg", "kl_metric_posDef", "kl_grad_constants", "insert_remove_inverse",
     "constants_removed_and_fixed", "at_keeps_residuals", "mirrored_average_symmetric", "classic_local_item")]
 RULE = ("case = (implementation classic/JAX, three latent keys a,b,c with 1..2 entries, data size, integer response, "
         "non-linear forward model exp/tanh/quadratic, constants ⊆ keys, point estimates ⊊ keys, mirrored or not (classic), "
